@@ -132,6 +132,15 @@ THEOREMS.update({
     'C06_model_is_source_cli_calculate_scores_scores': "instance over Model/Scores.v with the library call standing for the TRANSLATED score_chunk: the translated main = the model's score_chunk on the loaded screen and the --batch-plate-ids list, the scorer's answer (on the concatenated thetas / distance matrix and the seeded generator) stored by chunk_holder_of_answer, saved",
 })
 EXPLANATION += ("  (3) The CLI wrappers select_next_plate.main and calculate_scores.main are re-translated as WHOLE functions on every run (Generated/SrcCli.v) and proved equal to Model/Cli.v; two instances compose them with the translated library functions over Model/Scores.v.  These links trust the translator harness/py2gal.py (for these links extended by cfg typed_effects, kwcalls keys `module.function`, state_calls assigned to a tuple), the representation of Model/Cli.v (parsed arguments = a record of the plain argparse results, get_args() not translated = the primitive `get_args()` yielding that record; a main() denotes the list of (path, content) files it writes; `L` = ANY record of library functions over abstract types) and EXACTLY these primitives of harness/src_functions.py, each one field read / one library or constructor call standing for the function of that name (whose own link, where it exists, is the one of its property): CLI_PRNG (get_prng_from_seed_argument, reads args.seed only): numpy.random.SeedSequence(s).generate_state(1)[0] = seedseq_word mix s (ValueError for s < 0, `mix` an arbitrary function of the seed), numpy.random.default_rng(w) = Gen w. CLI_SELECT_NEXT_PLATE: the fields of `args` read as the record's projections (a store to one is refused); ignored: log_config.configure_logging(args), logger.info/warning; Screen.load_h5(p), args.policy_cls(**args.policy_params), get_prng_from_seed_argument(args) (translated), ChunkedScoresHolder.load_h5(p) / .concat(l), p.plate_id, the keyword call select_next_plate(...) with its defaults (batch_plate_ids=None, rng=None), the context open(p, 'w') = the path, typed effect f.write(str(n)) with n an int = append (f, n) (the file holds the decimal text of n). CLI_CALCULATE_SCORES: the fields of `args` read as the record's projections (a store to one is refused); ignored: log_config.configure_logging(args), logger.info/warning; Screen.load_h5(p), args.scorer_cls(**args.scorer_params), ThetaHolder(n_thetas=1) (a handle), h.load_h5(p), h.concat(l), ChunkedDistanceMatrix.load(p) / .concat(l), sum(l), s.plates, p.is_observed, p.plate_id (the three only feed a log line), get_prng_from_seed_argument(args) = the TRANSLATED function on the record's seed, the keyword call score_chunk(...) with the defaults of its signature (rng=None, progress_bar=False, n_chunks=1, chunk_index=0, batch_plate_ids=None; WHICH keywords are passed is read from the source), typed effect r.save_h5(p) = append (p, r) to the written files. ")
+THEOREMS.update({
+    'C06_model_is_source_cli_args_get_args': 'the translation of the WHOLE function select_next_plate.get_args (parse_args() = the raw namespace) equals Cli.sn_get_args: with --policy, class lookup among PlatePolicy subclasses, its required-argument annotations, --policy-param cast by them; without, policy_cls = None and policy_params = {} and no lookup',
+    'C06_model_is_source_cli_args_select_next_plate': 'select_next_plate.main translated as a whole command (get_args() = the translated get_args; args.policy_cls(**args.policy_params) = construct on the two attributes) equals Cli.cli_select_next_plate_cmd: sn_mk_policy IS the resolved class instantiated with the cast parameters',
+    'C06_model_is_source_cli_args_select_next_plate_world': 'the same with the introspection record made of the TRANSLATED get_class / get_required_init_args_with_annotations (Props/C18.v)',
+})
+import c18_args
+EXPLANATION += c18_args.explanation(["get_args", "cmd"], "select_next_plate.get_args and select_next_plate.main as a whole command are") + (
+    "cast_dict_to_type, str_to_bool and the introspection functions are linked in Props/C18.v (their primitives are listed in C18's evidence).  "
+    "Runtime: get_args() is run on generated command lines (kind cli_args): policy_cls is the class named, policy_params are typed by its annotations.  ")
 
 THEOREMS.update({
     "C06_model_is_source_size_scorer_score": "the translation of the whole method SizeScorer.score ({k: plate.size for k, plate in plates.items()}; distance_matrix, samples, rng, progress_bar are not read) equals the model's size_scorer on every plates dict (distinct keys, as in any Python dict): the same plate ids in the same order, each with the number of rows of its plate",
@@ -459,7 +468,8 @@ def gen(rng, tier):
         used = [i for _, a in hs for i, _ in a]
         pid = rng.choice(used + used + [0, rng.randint(0, 9)]) if used else rng.randint(0, 3)
         yield dict(kind="holder", holders=hs, post=[], eligible=[pid], what=2)
-
+    import c18_args
+    yield from c18_args.gen_get_args(rng, tier, only="select_next_plate")
 
 # --------------------------------------------------------------------------- running
 
@@ -473,6 +483,9 @@ def _score_wire(x):
 
 
 def run(desc):
+    if desc.get("kind") == "cli_args":      # get_args() of this property's wrapper on generated command lines (harness/c18_args.py)
+        import c18_args
+        return c18_args.run_case(desc)
     k = desc["kind"]
     if k == "split":
         l = list(range(100, 100 + desc["len"]))
@@ -831,6 +844,8 @@ def run_pipeline(desc):
 
 
 def shrink(desc):
+    if desc.get("kind") == "cli_args":
+        return
     k = desc["kind"]
     if k in ("pipeline", "chunk"):
         sd = desc["screen"]
